@@ -18,6 +18,7 @@
 #    along with this program.  If not, see <http://www.gnu.org/licenses/>.
 #
 
+from fractions import Fraction
 from bitcoinlib.networks import *
 from bitcoinlib.config.config import NETWORK_DENOMINATORS
 
@@ -183,7 +184,9 @@ class Value:
                         break
                 else:
                     raise ValueError("Currency symbol or denominator not recognised")
-            self.value = float(value) * den_input
+            # Scale the decimal text exactly and convert to float once: float(text) * denominator rounds twice and loses
+            # the last unit of large amounts written in a sub-unit denominator
+            self.value = float(Fraction(value) * Fraction(repr(den_input)))
             self.denominator = den_input if den_arg is None else den_arg
         else:
             self.denominator = den_arg or 1.0
